@@ -104,6 +104,71 @@ Theorem sha1_fuel_enough : forall l extra s,
   sha1_blocks (S (Nat.div (length p) 64) + extra) s p = sha1_blocks (S (Nat.div (length p) 64)) s p.
 Proof. intros l extra s p. apply sha1_blocks_fuel; lia. Qed.
 
+(* ---- the message schedule (FIPS 180-4 6.1.2 step 1): W_t = M_t for t < 16 and
+        W_t = ROTL^1 (W_(t-3) xor W_(t-8) xor W_(t-14) xor W_(t-16)) for 16 <= t < 80, for every block ---- *)
+Definition schedule (w16 : list N) : list N := rev (extend 64 (rev w16)).
+Definition sched_rec (W : list N) (t : nat) : Prop :=
+  nth t W 0 = rotl32 1 (N.lxor (N.lxor (nth (t - 3) W 0) (nth (t - 8) W 0)) (N.lxor (nth (t - 14) W 0) (nth (t - 16) W 0))).
+
+Lemma extend_app : forall k r, exists pre, extend k r = pre ++ r /\ length pre = k.
+Proof.
+  induction k; intros r; [exists []; auto|]. cbn [extend].
+  destruct (IHk (rotl32 1 (N.lxor (N.lxor (nth 2 r 0) (nth 7 r 0)) (N.lxor (nth 13 r 0) (nth 15 r 0))) :: r)) as (pre & E & L).
+  exists (pre ++ [rotl32 1 (N.lxor (N.lxor (nth 2 r 0) (nth 7 r 0)) (N.lxor (nth 13 r 0) (nth 15 r 0)))]).
+  rewrite E, <- app_assoc. split; [reflexivity|]. rewrite app_length. simpl. lia.
+Qed.
+
+Lemma extend_inv : forall k r, (16 <= length r)%nat ->
+  (forall t, (16 <= t < length r)%nat -> sched_rec (rev r) t) ->
+  forall t, (16 <= t < k + length r)%nat -> sched_rec (rev (extend k r)) t.
+Proof.
+  induction k; intros r L Inv t Ht; [apply Inv; simpl in Ht; lia|].
+  cbn [extend]. set (w := rotl32 1 (N.lxor (N.lxor (nth 2 r 0) (nth 7 r 0)) (N.lxor (nth 13 r 0) (nth 15 r 0)))).
+  apply IHk; [simpl; lia| |simpl; lia].
+  intros u Hu. cbn [length] in Hu. unfold sched_rec. cbn [rev].
+  destruct (Nat.eq_dec u (length r)) as [->|Ne].
+  - rewrite app_nth2 by (rewrite rev_length; lia). rewrite rev_length, Nat.sub_diag. cbn [nth].
+    rewrite !app_nth1 by (rewrite rev_length; lia).
+    rewrite !rev_nth by lia.
+    replace (length r - S (length r - 3))%nat with 2%nat by lia.
+    replace (length r - S (length r - 8))%nat with 7%nat by lia.
+    replace (length r - S (length r - 14))%nat with 13%nat by lia.
+    replace (length r - S (length r - 16))%nat with 15%nat by lia.
+    reflexivity.
+  - rewrite !app_nth1 by (rewrite rev_length; lia). apply Inv. lia.
+Qed.
+
+Theorem sha1_schedule : forall w16, length w16 = 16%nat ->
+  length (schedule w16) = 80%nat /\
+  (forall t, (t < 16)%nat -> nth t (schedule w16) 0 = nth t w16 0) /\
+  (forall t, (16 <= t < 80)%nat -> sched_rec (schedule w16) t).
+Proof.
+  intros w16 L. unfold schedule.
+  destruct (extend_app 64 (rev w16)) as (pre & E & Lp).
+  split; [|split].
+  - rewrite rev_length, E, app_length, rev_length. lia.
+  - intros t Ht. rewrite E, rev_app_distr, rev_involutive. apply app_nth1. lia.
+  - intros t Ht. apply extend_inv; rewrite ?rev_length; try lia.
+Qed.
+
+(* every block of the padded message has 64 octets, i.e. 16 words *)
+Lemma words_of_length : forall n l, length l = (4 * n)%nat -> length (words_of l) = n.
+Proof.
+  induction n; intros l L.
+  - destruct l; [reflexivity|discriminate].
+  - do 4 (destruct l as [|? l]; [simpl in L; lia|]). cbn [words_of length]. f_equal. apply IHn. simpl in L. lia.
+Qed.
+
+(* the 32-bit operations stay below 2^32 *)
+Lemma m32_lt : forall x, m32 x < 2 ^ 32.
+Proof.
+  intros x. unfold m32. change 4294967295 with (N.ones 32). rewrite N.land_ones. apply N.mod_lt. discriminate.
+Qed.
+Lemma add32_lt : forall a b, add32 a b < 2 ^ 32.  Proof. intros. apply m32_lt. Qed.
+Lemma rotl32_lt : forall n x, rotl32 n x < 2 ^ 32.  Proof. intros. apply m32_lt. Qed.
+Lemma add32_mod : forall a b, add32 a b = (a + b) mod 2 ^ 32.
+Proof. intros. unfold add32, m32. change 4294967295 with (N.ones 32). apply N.land_ones. Qed.
+
 (* ---- test vectors (FIPS 180-2 appendix A / NIST CAVS): non-vacuity, not theorems ---- *)
 Example sha1_vec_abc : hex_of false (sha1 (bs "abc")) = bs "a9993e364706816aba3e25717850c26c9cd0d89d".
 Proof. vm_compute. reflexivity. Qed.
